@@ -30,6 +30,9 @@ LIFTS = {
     "nom_count": {"kind": "nomfn", "file": "src/multi/mod.rs", "fn": "count", "name": "vf_nom_count",
                   "sig": r"pub fn count<I, O, E, F>\(mut f: F, count: usize\) -> impl FnMut\(I\) -> IResult<I, Vec<O>, E>",
                   "generics": "<'a, O, F: Fn(&'a [u8]) -> nom::IResult<&'a [u8], O>>", "params": "f: F, count: usize", "ret": "Vec<O>"},
+    "nom_many0": {"kind": "nomfn", "file": "src/multi/mod.rs", "fn": "many0", "name": "vf_nom_many0",
+                  "sig": r"pub fn many0<I, O, E, F>\(mut f: F\) -> impl FnMut\(I\) -> IResult<I, Vec<O>, E>",
+                  "generics": "<'a, O, F: Fn(&'a [u8]) -> nom::IResult<&'a [u8], O>>", "params": "f: F", "ret": "Vec<O>"},
     "nom_complete": {"kind": "nomfn", "file": "src/combinator/mod.rs", "fn": "complete", "name": "vf_nom_complete",
                      "sig": r"pub fn complete<I: Clone, O, E: ParseError<I>, F>\(mut f: F\) -> impl FnMut\(I\) -> IResult<I, O, E>",
                      "generics": "<'a, O, F: Fn(&'a [u8]) -> nom::IResult<&'a [u8], O>>", "params": "f: F", "ret": "O"},
@@ -147,7 +150,7 @@ def build_nomfn(name, repo):
     path = os.path.join(nd, spec["file"])
     log = {}
     p0, b0, raw0 = nom_closure_body(path, spec["fn"])
-    pm0 = re.match(r"(\w+)\s*:\s*I$", p0)
+    pm0 = re.match(r"((?:mut\s+)?\w+)\s*:\s*I$", p0)       # a `mut x` parameter is kept (extract.py: `mutparam`, R19)
     if not pm0:
         raise AnchorLost("nom %s: closure parameter changed shape" % spec["fn"])
     whole = open(path).read()
